@@ -137,6 +137,36 @@ def case_partition_masks(ctx, variant):
     ctx.equal("prescribed_value_vector_lists_each_boundary_value_at_its_unknown", ext0, exp)
 
 
+def case_scalar_boundary(ctx, skip, via):
+    """one-component fields (dim == 1: both the 'point mask' and the 'dof mask' shape tests match): the mask is
+    (selected points) x (not skipped components), also inside a [vector, scalar] container partition"""
+    with ctx.concrete():
+        m = fem.Rectangle(n=(3, 2))
+        region = fem.RegionQuad(m)
+        vec, sca = fem.Field(region, dim=2), fem.Field(region, dim=1)
+        field = fem.FieldContainer([vec, sca])
+    sym_values(ctx, field)
+    sel = np.isclose(m.points[:, 0], 0.0)
+    val = ctx.var("val", -1, 1)
+    if via == "fx":
+        b = fem.Boundary(sca, fx=0.0, skip=tuple(skip), value=val)
+    elif via == "point_mask":
+        b = fem.Boundary(sca, mask=sel.copy(), skip=tuple(skip), value=val)
+    else:  # dof mask (npoints, 1): skip does not apply
+        b = fem.Boundary(sca, mask=sel.reshape(-1, 1).copy(), value=val)
+    exp_mask = sel.reshape(-1, 1) & (np.array([True]) if via == "dof_mask" else ~np.array(skip, dtype=bool)).reshape(1, -1)
+    ctx.check_concrete("mask_is_selected_points_times_unskipped_components", b.mask.shape == exp_mask.shape and bool(np.array_equal(b.mask, exp_mask)), "mask %s expected %s" % (b.mask.ravel().astype(int), exp_mask.ravel().astype(int)))
+    bounds = {"v": fem.Boundary(vec, fx=1.0, skip=(0, 1), value=0.0), "s": b}
+    dof0, dof1 = fem.dof.partition(field, bounds)
+    off = vec.values.size
+    exp0 = sorted([2 * int(p_) for p_ in np.where(np.isclose(m.points[:, 0], 1.0))[0]] + [off + int(p_) for p_ in np.where(exp_mask[:, 0])[0]])
+    ctx.check_concrete("partition_prescribes_exactly_the_masked_unknowns", list(dof0) == exp0, "dof0 %s expected %s" % (list(dof0), exp0))
+    ext0 = np.asarray(fem.dof.apply(field, bounds, dof0))
+    exp = np.array([(val if k >= off else 0 * val) for k in exp0], dtype=object if ctx.sym else float)
+    if len(exp0) == len(ext0):
+        ctx.equal("prescribed_values_of_scalar_boundary", ext0, exp)
+
+
 def case_array_values(ctx):
     """array-valued boundary values of shape (dim,) and (npoints_selected, dim)"""
     with ctx.concrete():
@@ -304,6 +334,10 @@ def cases(tier):
     for v in ("plain", "cellless", "mixed", "scalar_same_mesh"):
         out.append(("partition_masks", case_partition_masks, {"variant": v}))
     out.append(("array_values", case_array_values, {}))
+    for via in ("fx", "point_mask"):
+        for skip in ([False], [True]):
+            out.append(("scalar_boundary", case_scalar_boundary, {"skip": skip, "via": via}))
+    out.append(("scalar_boundary", case_scalar_boundary, {"skip": [False], "via": "dof_mask"}))
     for mode in ("or", "and"):
         for which in ("fx", "both"):
             for skip in ((0, 0), (1, 0)):
